@@ -36,6 +36,48 @@ Definition hash_step (st : step) : bool :=
 (* the real result is a deterministic sequence: compare exactly (implied by has_barrier = false) *)
 Definition order_exact (steps : list step) : bool := negb (existsb hash_step steps).
 
+(* Some list INSIDE the values is built from a map's iteration order: a group_by_key downstream
+   of a hash step (the group's value order follows the arbitrary row order), or the output list of
+   the DistinctSet combiner (a HashSet drained into a Vec).  Only then are nested lists compared as
+   bags; otherwise nested lists are data and compared exactly. *)
+Fixpoint lists_arbitrary_from (fuel : nat) (unord : bool) (steps : list step) : bool :=
+  match fuel with
+  | O => false
+  | S fuel' =>
+      match steps with
+      | [] => false
+      | st :: rest =>
+          let here :=
+            match st with
+            | SGroupByKey => unord
+            | SCombineValues CDistinct | SCombineValuesLifted CDistinct
+            | SCombineGlobally CDistinct _ _ => true
+            | SJoin _ rs _ => lists_arbitrary_from fuel' false rs
+            | _ => false
+            end in
+          here || lists_arbitrary_from fuel' (unord || hash_step st) rest
+      end
+  end.
+Definition lists_arbitrary (steps : list step) : bool :=
+  lists_arbitrary_from (S (steps_size steps)) false steps.
+
+(* how two results of a program are compared:
+   CExact : identical sequences (no step iterates a hash map);
+   CRows  : equal as multisets of rows, every row compared exactly;
+   CDeep  : equal after sorting the rows and every nested list (lists_arbitrary) *)
+Inductive cmp_mode := CExact | CRows | CDeep.
+Definition cmp_of (steps : list step) : cmp_mode :=
+  if order_exact steps then CExact else if lists_arbitrary steps then CDeep else CRows.
+(* for comparing bags of values taken out of a result (keys, one group's values, flattened rows) *)
+Definition bag_mode (steps : list step) : cmp_mode :=
+  if lists_arbitrary steps then CDeep else CRows.
+Definition rows_cmp (m : cmp_mode) (a b : list val) : bool :=
+  match m with
+  | CExact => rows_eqb a b
+  | CRows => rows_eqb (vsort a) (vsort b)
+  | CDeep => canon_eqb a b
+  end.
+
 Definition is_join (st : step) : bool := match st with SJoin _ _ _ => true | _ => false end.
 
 (* batch functions that are not element-wise: the parallel result legitimately depends on the
@@ -136,10 +178,10 @@ Definition model_outcome (m : mode) (s : src) (steps : list step) : obs :=
   | _ => obs_of o
   end.
 
-(* observed vs expected outcome: equal class; rows exactly (deterministic order) or modulo canon *)
-Definition obs_agree (exact : bool) (a b : obs) : bool :=
+(* observed vs expected outcome: equal class; rows compared in the program's comparison mode *)
+Definition obs_agree (m : cmp_mode) (a b : obs) : bool :=
   match a, b with
-  | OOk x, OOk y => if exact then rows_eqb x y else canon_eqb x y
+  | OOk x, OOk y => rows_cmp m x y
   | OErr e, OErr e' => Nat.eqb e e'
   | OPanic, OPanic => true
   | OHang, OHang => true
@@ -147,7 +189,7 @@ Definition obs_agree (exact : bool) (a b : obs) : bool :=
   end.
 
 Definition agree_model (m : mode) (s : src) (steps : list step) (o : obs) : bool :=
-  obs_agree (order_exact steps) (model_outcome m s steps) o.
+  obs_agree (cmp_of steps) (model_outcome m s steps) o.
 
 (* ---------- reference outcome (independent of the engine model): Denote ---------- *)
 (* what the list semantics says the program returns: an error for a join fed by a join, a panic
@@ -199,6 +241,7 @@ Definition dec_prog (input : J) : option (src * list step * mode) :=
   | _ => None
   end.
 
-(* the reference says Ok/Err/Panic; the observed outcome must be that, rows modulo canon *)
+(* the reference says Ok/Err/Panic; the observed outcome must be that, rows compared in the
+   program's comparison mode (exact sequence for hash-free programs) *)
 Definition meets_ref (s : src) (steps : list step) (o : obs) : bool :=
-  obs_agree false (ref_outcome s steps) o.
+  obs_agree (cmp_of steps) (ref_outcome s steps) o.
